@@ -107,6 +107,17 @@ where
             }
         }
     }
+    // a FRESH evaluator for each breakpoint (the very first query of an evaluator is special: its remembered
+    // argument is initialised from the first breakpoint)
+    for &x in ends.iter().take(8) {
+        let mut fresh = lib!(PiecewiseEvaluator::new(&tag.segments));
+        let got = lib!(fresh.evaluate(x));
+        let m = select(&ends, x) as f64;
+        ctx.comparisons += 1;
+        if !same_bits(got, m) {
+            fail!("{tyname}::arbitrary value with ends {:?}: a fresh stateful evaluator queried at x={} uses segment {} but direct evaluation / the selection model segment {}", ends, hex(x), got, m);
+        }
+    }
     let sorted: Vec<f64> = alpha.iter().cloned().filter(|x| !x.is_nan()).collect(); // alphabet is sorted by total order
     let batch: Vec<f64> = lib!(tag.evaluate_v(sorted.clone()).collect());
     if batch.len() != sorted.len() {
